@@ -97,13 +97,25 @@ fn fwd(op: &Op, _ctx: &dyn Context, operands: &mut dyn CoordinateSet) -> usize {
         }
         let V = (B * dlon).sin();
         let U = (S * s0 - V * c0) / T;
-        let v = A * ((1.0 - U) / (1.0 + U)).ln() / (2.0 * B);
+        let mut v = A * ((1.0 - U) / (1.0 + U)).ln() / (2.0 * B);
 
         let cblon = (B * dlon).cos();
 
+        // At the poles t is 0 or infinite, and U degenerates into inf/inf. But the
+        // limits are well defined (Snyder 1987, eq. 9-30a/b): U = +/-sin(gamma_0),
+        // while the argument of the arctangent below becomes +/-infinity
+        // (a NaN longitude must still show, although nothing depends on the longitude here)
+        let pole = lat.abs() == FRAC_PI_2 && !lon.is_nan();
+        let arctan = if pole {
+            v = A * (FRAC_PI_4 - gamma_0 * lat.signum() / 2.0).tan().ln() / B;
+            lat
+        } else {
+            (S * c0 + V * s0).atan2(cblon)
+        };
+
         // Variant A
         if !variant {
-            let u = A * (S * c0 + V * s0).atan2(cblon) / B;
+            let u = A * arctan / B;
             let x = v * cc + u * sc + FE;
             let y = u * cc - v * sc + FN;
             operands.set_xy(i, x, y);
@@ -116,7 +128,7 @@ fn fwd(op: &Op, _ctx: &dyn Context, operands: &mut dyn CoordinateSet) -> usize {
         // The general case. This also covers alpha = 90: the sign switching at lonc,
         // prescribed by the Guidance Note for that case, compensates for the branch
         // cut of the plain arctangent - using atan2, u is continuous across lonc
-        let u = A * (S * c0 + V * s0).atan2(cblon) / B - uc.copysign(latc);
+        let u = A * arctan / B - uc.copysign(latc);
         let x = v * cc + u * sc + Ec;
         let y = u * cc - v * sc + Nc;
         operands.set_xy(i, x, y);
